@@ -45,7 +45,8 @@ Null      == [t |-> "null"]
 Absent    == [t |-> "absent"]          \* result of looking up a missing member; never part of a tree
 Bo(x)     == [t |-> "bool", v |-> x]
 In(n)     == [t |-> "int", v |-> n]
-\* an integer beyond TLC's 32 bits: base "p53" = 2^53, "max" = MaxInt64 - 3, "min" = MinInt64, plus off in 0..3.
+\* an integer beyond TLC's 32 bits: base + off (off in 0..3); bases "p31" = 2^31 - 2, "n31" = -2^31 - 1, "p32" = 2^32 - 3,
+\* "p53" = 2^53, "max" = MaxInt64 - 3, "min" = MinInt64, "u63" = 2^63 - 1 (crosses into uint64 only) and "umax" = MaxUint64 - 3.
 \* The harness expands it to the int64 / gen.Int; equality of two such leaves is record equality (exact). In traces
 \* integers beyond 2^30 arrive as exact decimal digit records (absval "dec"), again compared by record equality.
 BigIn(base, off) == [t |-> "int", big |-> base, off |-> off]
@@ -97,13 +98,18 @@ Put(x, p, n) == IF p = <<>> THEN n
 SmallNum(x) == IF x.t = "int" THEN "v" \in DOMAIN x ELSE "q" \in DOMAIN x
 \* x int, y float
 \* a float with q is at most 2^30 in magnitude, an int without v is beyond 2^30: those two cannot be equal
-NumCross(x, y) == IF SmallNum(y)
+\* (an unsigned value above MaxInt64 is read by ojg as the int64 with the same bits: against a float it is open, like "wrap" below)
+NumCross(x, y) == IF "wrap" \in DOMAIN x THEN "may" ELSE IF SmallNum(y)
                   THEN (IF SmallNum(x) /\ y.q[2] = 0 /\ y.q[1] = x.v THEN "may" ELSE "must")
                   ELSE "may"                                                      \* A1
 
 LeafCls(x, y) ==
    IF x.t = "absent" \/ y.t = "absent"
    THEN (IF {x.t, y.t} \subseteq {"absent", "null"} THEN "eq" ELSE "must")      \* null versus absent member
+   \* an unsigned value above MaxInt64 against the int64 with the same bit pattern ("wrap", a fact the harness supplies): ojg
+   \* converts every integer to int64, nothing says what that means beyond its range: open.  Everything else is exact.
+   ELSE IF x.t = "int" /\ y.t = "int" /\ x # y /\ (("wrap" \in DOMAIN x /\ "dec" \in DOMAIN y /\ "wrap" \notin DOMAIN y /\ x.wrap = y.dec)
+                                                \/ ("wrap" \in DOMAIN y /\ "dec" \in DOMAIN x /\ "wrap" \notin DOMAIN x /\ y.wrap = x.dec)) THEN "may"
    ELSE IF x.t = y.t THEN (IF x = y THEN "eq" ELSE "must")
    ELSE IF x.t = "int" /\ y.t = "flt" THEN NumCross(x, y)
    ELSE IF x.t = "flt" /\ y.t = "int" THEN NumCross(y, x)
@@ -276,7 +282,8 @@ vars == <<a, b, np, touched, phase>>
 
 KeySeq == <<"a", "b">>
 BuildVals == IF Rich THEN {Null, In(1), St("x"), Bo(TRUE), Fl(3, 1), Tm(0), EArr, EObj,
-                           BigIn("p53", 0), BigIn("p53", 1), BigIn("max", 2), BigIn("min", 0)}
+                           BigIn("p53", 0), BigIn("p53", 1), BigIn("max", 2), BigIn("min", 0), BigIn("u63", 1), BigIn("umax", 3),
+                           BigIn("p31", 1), BigIn("n31", 1), BigIn("p32", 2), In(127), In(-128), In(255), In(32768), In(65535)}
              ELSE {Null, In(1), EArr, EObj}
 
 \* insert key k (not present) keeping the KeySeq order
@@ -319,7 +326,7 @@ Changes(x) ==
         \cup {<<IF Member(x, k) = Null THEN "null-absent" ELSE "member-delete", DelMember(x, k)>> : k \in Range(x.k)}
         \cup {<<"subtree", Null>>, <<"subtree", Arr(<<In(1)>>)>>, <<"subtree", EArr>>}
 
-Init == /\ a \in {EArr, EObj, In(1), Null} \cup (IF Rich THEN {BigIn("p53", 0), BigIn("max", 3), BigIn("min", 1)} ELSE {}) /\ b = Null /\ np = 0 /\ touched = {} /\ phase = "build"
+Init == /\ a \in {EArr, EObj, In(1), Null} \cup (IF Rich THEN {BigIn("p53", 0), BigIn("max", 3), BigIn("min", 1), BigIn("u63", 1), BigIn("umax", 2)} ELSE {}) /\ b = Null /\ np = 0 /\ touched = {} /\ phase = "build"
 
 Grow == /\ phase = "build" /\ Size(a) < MaxNodes
         /\ \E p \in Locs(a, <<>>) : \E n \in Grown(At(a, p), BuildVals) : a' = Put(a, p, n)
@@ -367,6 +374,9 @@ TruthLocal == phase = "pert" => \A T \in TruthNow : \E p \in touched : Comparabl
 TruthEq == phase = "pert" => /\ (TruthNow = {}) = Eq(a, b, FALSE)
                              /\ (Musts(TruthNow) = {}) = Eq(a, b, TRUE)
 TruthSym == phase = "pert" => TruthNow = Truth(b, a, <<>>)
+\* every tree equals itself: Diff(x, x) must be empty, Compare nil, Match(x, x) true
+Reflexive == phase = "pert" => /\ Truth(a, a, <<>>) = {} /\ Truth(b, b, <<>>) = {}
+                               /\ Match3(a, a) = "T" /\ Match3(b, b) = "T"
 \* the reference Diff satisfies every relation for every offered ignore set: the relations are satisfiable
 RefOK == phase = "pert" =>
            \A igs \in IgnSets(a, b) : LET D == RefDiff(a, b, igs, <<>>, FALSE) IN
